@@ -95,6 +95,29 @@ def load_known():
         return json.load(fh).get('findings', [])
 
 
+def _counterpart(key, verdicts):
+    """The same obligation positively decided on the inlined form: identical construct key, or a key of the same
+    rule in the same function whose construct is a prefix of the other (rules refine the construct with the failure
+    mode they found, e.g. `...::self._append` vs `...::self._append::raise`)."""
+    if verdicts.get(key) in (DISCHARGED, ASSUMED):
+        return True
+    stem, _, rule = key.rpartition('::')
+    for k, v in verdicts.items():
+        s2, _, r2 = k.rpartition('::')
+        if r2 == rule and v in (DISCHARGED, ASSUMED) and (stem.startswith(s2 + '::') or s2.startswith(stem + '::')):
+            return True
+    return False
+
+
+def _same_clause_decided(o, byfunc):
+    """Rules name the construct after what they found (or missed), so the good and the bad outcome of one clause
+    can carry different keys: accept when the same rule and clause were positively decided for the same function on
+    the inlined form and nothing of that rule/clause is violated there."""
+    fn = o.where.split()[-1] if o.where else ''
+    mine = [v for r, c, f, v in byfunc if r == o.rule and c == o.clause and f == fn]
+    return bool(mine) and VIOLATED not in mine and DISCHARGED in mine
+
+
 def _second_opinion(pid, module, tier, root, seed, open_known):
     """Re-run the property on the helper-inlined equivalent form of the package (inline.py).
     Returns {'clean': bool, 'inlined': [...]} or None when that form cannot be built/analysed
@@ -111,7 +134,9 @@ def _second_opinion(pid, module, tier, root, seed, open_known):
         if any(found < minimum for _, found, minimum in ctx2.floors) or not ctx2.obs:
             return {'clean': False, 'inlined': ctx2.repo.expanded}
         bad = [o for o in ctx2.obs if o.verdict == VIOLATED and o.construct not in open_known]
-        return {'clean': not bad, 'inlined': ctx2.repo.expanded, 'violated': [o.construct for o in bad]}
+        return {'clean': not bad, 'inlined': ctx2.repo.expanded, 'violated': [o.construct for o in bad],
+                'verdicts': {o.construct: o.verdict for o in ctx2.obs},
+                'byfunc': [(o.rule, o.clause, o.where.split()[-1] if o.where else '', o.verdict) for o in ctx2.obs]}
     except AnalysisError:
         return None
     except Exception:
@@ -165,12 +190,21 @@ def run(pid, module, tier, root, seed, quiet=False, evidence=True):
         second_opinion = _second_opinion(pid, module, tier, root, seed, open_known)
         if second_opinion is not None and second_opinion['clean']:
             for o in ctx.obs:
-                if o.verdict == VIOLATED and o.construct not in open_known:
+                # the very same obligation (same rule, function and construct) must have been positively decided on
+                # the inlined form; an obligation that merely vanished there stays violated
+                # (or the obligation is about a helper that no longer exists there because it was inlined into its
+                # callers, where its statements were analysed in their context)
+                fname = o.where.split()[-1].split('.')[-1] if o.where else ''
+                if o.verdict == VIOLATED and o.construct not in open_known and \
+                        (_counterpart(o.construct, second_opinion['verdicts']) or
+                         _same_clause_decided(o, second_opinion['byfunc']) or
+                         (fname in second_opinion['inlined'] and o.construct not in second_opinion['verdicts'])):
                     o.verdict = DISCHARGED
                     o.instance += ' [shape not found in the source as written; found in the equivalent form with the ' \
                                   f'private helper(s) {", ".join(second_opinion["inlined"])} inlined]'
                     o.detail = ''
-            floor_fail = []
+            if not any(o.verdict == VIOLATED for o in ctx.obs):
+                floor_fail = []
     nviol = 0
     lines = []
     replay_paths = []
